@@ -11,6 +11,7 @@ def run(tier, seed):
     r = vlib.Result(PROP, tier, seed)
     cases = lc.run_family(vlib, "control", work, r, fresh=True)
     cases += lc.run_family(vlib, "delim", work, r, fresh=True)
+    cases += lc.run_family(vlib, "store", work, r, fresh=True)
     # the builder also assembles call/cc and with-handler forms: all programs within the budget
     res = vlib.run_tlc("Lang", "MC_Lang_build_quick.cfg" if tier == "quick" else "MC_Lang_build.cfg", work, workers=8, timeout=1500)
     r.add_tlc(res)
